@@ -148,6 +148,29 @@ def missing_key(t: str, k: str) -> bool:
     return sid.get_as(k) == Sid() and sid.get(k) is None
 
 
+def refused_query(t: str) -> bool:
+    """
+    A typed Sid that keeps a refused query in its string (C04) is still a typed Sid: keytype / basetype / len equal the last
+    field name, the type prefix and the number of fields, and its parent has one field less.
+    pre: NMIN <= len(t) <= N
+    pre: ':' not in t
+    post: _
+    """
+    sid = Sid(PRE + t + SUF)
+    if not sid:
+        return True
+    keys = list(sid.fields.keys())
+    if sid.keytype != keys[-1]:
+        return fail("keytype")
+    if sid.basetype != sid.type.split(SEP)[0]:
+        return fail("basetype")
+    if len(sid) != len(keys):
+        return fail("len")
+    if len(keys) > 1 and len(sid.parent) != len(keys) - 1:
+        return fail("parent-len")
+    return True
+
+
 def reach(t: str) -> bool:
     """
     Twin: typed, >= 3 fields, parent / last == sid reached.
